@@ -1,6 +1,8 @@
 package harness
 
 import (
+	"encoding/base64"
+	"bytes"
 	"encoding/json"
 	"errors"
 	"fmt"
@@ -22,6 +24,7 @@ type RecConn struct {
 	mu    sync.Mutex
 	keyNo map[string]int
 	live  map[string]int // shadow of live keys -> json array length (-1 for entries)
+	refs  map[string][]string // index key -> the live keys its value named when it was written
 }
 
 func newRecConn(w *World, inner driver.Conn) *RecConn {
@@ -150,7 +153,7 @@ func (c *RecConn) Get(key string) ([]byte, error) {
 	c.w.log.Emit(M{"ev": "op", "x": x, "bg": bg, "kind": "get", "role": role, "k": c.kn(key),
 		"ok": b2i(err == nil), "nx": b2i(errors.Is(err, driver.ErrNotExist)), "fault": f, "n": n,
 		"len": len(v), "toks": scanMarks(tokRe, "tk", v), "tags": scanMarks(tagRe, "tg", v), "hop": len(scanMarks(hopRe, "hp", v)),
-		"nkeys": nk, "maxidx": mi, "t": c.w.now()})
+		"nkeys": nk, "maxidx": mi, "orph": 0, "t": c.w.now()})
 	return v, err
 }
 
@@ -169,13 +172,30 @@ func (c *RecConn) Set(key string, value []byte) error {
 	if err == nil {
 		c.mu.Lock()
 		c.live[key] = n
+		if c.refs == nil {
+			c.refs = map[string][]string{}
+		}
+		delete(c.refs, key)
+		if role == "idx" {
+			// the keys this index makes reachable: live keys whose text (as JSON would write it, or as base64 for
+			// keys that are not UTF-8) occurs in the value
+			for k := range c.live {
+				if k == key {
+					continue
+				}
+				js, _ := json.Marshal(k)
+				if bytes.Contains(value, js[1:len(js)-1]) || bytes.Contains(value, []byte(base64.StdEncoding.EncodeToString([]byte(k)))) {
+					c.refs[key] = append(c.refs[key], k)
+				}
+			}
+		}
 		c.mu.Unlock()
 	}
 	nk, mi := c.stats()
 	c.w.log.Emit(M{"ev": "op", "x": x, "bg": bg, "kind": "set", "role": role, "k": c.kn(key),
 		"ok": b2i(err == nil), "nx": 0, "fault": f, "n": n,
 		"len": len(value), "toks": scanMarks(tokRe, "tk", value), "tags": scanMarks(tagRe, "tg", value), "hop": len(scanMarks(hopRe, "hp", value)),
-		"nkeys": nk, "maxidx": mi, "t": c.w.now()})
+		"nkeys": nk, "maxidx": mi, "orph": 0, "t": c.w.now()})
 	return err
 }
 
@@ -190,16 +210,24 @@ func (c *RecConn) Delete(key string) error {
 	default:
 		err = c.inner.Delete(key)
 	}
+	orph := 0
 	if err == nil {
 		c.mu.Lock()
 		delete(c.live, key)
+		// an index that goes while entries it named are still there leaves them unreachable
+		for _, k := range c.refs[key] {
+			if _, ok := c.live[k]; ok {
+				orph++
+			}
+		}
+		delete(c.refs, key)
 		c.mu.Unlock()
 	}
 	nk, mi := c.stats()
 	c.w.log.Emit(M{"ev": "op", "x": x, "bg": bg, "kind": "del", "role": "unk", "k": c.kn(key),
 		"ok": b2i(err == nil), "nx": b2i(errors.Is(err, driver.ErrNotExist)), "fault": f, "n": -1,
 		"len": 0, "toks": []string{}, "tags": []string{}, "hop": 0,
-		"nkeys": nk, "maxidx": mi, "t": c.w.now()})
+		"nkeys": nk, "maxidx": mi, "orph": orph, "t": c.w.now()})
 	return err
 }
 
